@@ -28,7 +28,7 @@ RULE = ('Generated budget directories: 1-4 transaction sources with independent 
         'and one of {transform, most_specific, supplemental query, decimal comma, non-comma delimiter, views}.')
 ASSUMPTIONS = ['component correctness (parse/classify/total/views) is decided by C01-C10; C11 decides that every setting reaches its component',
                'the in-process driver is re-confirmed on a fresh-subprocess sample per run']
-REQUIRED_CLASSES = ['repeated_charge_distinct_columns', 'duplicate_source_name', 'same_format_different_settings', 'source_missing_or_unreadable', 'source_fails_part_way', 'supplemental', 'supplemental_own_settings', 'views', 'csv_rules', 'most_specific', 'decimal_comma', 'subprocess_sample']
+REQUIRED_CLASSES = ['merchant_in_two_categories', 'repeated_charge_distinct_columns', 'duplicate_source_name', 'same_format_different_settings', 'source_missing_or_unreadable', 'source_fails_part_way', 'supplemental', 'supplemental_own_settings', 'views', 'csv_rules', 'most_specific', 'decimal_comma', 'subprocess_sample']
 
 case_st = st.fixed_dictionaries({'b': B.budget(), 'drop': st.integers(0, 3), 'sub': st.integers(0, 39)})
 
@@ -68,7 +68,8 @@ def run_up(bd, runner, case):
     return r_json, r_html
 
 
-def observe(b, bd, mat, case, runner=cli.run, label='in-process'):
+def observe(b, bd, mat, case, runner=cli.run, label='in-process', classes_out=None):
+    classes_out = classes_out if classes_out is not None else set()
     comp = B.compose(b, mat)
     if comp['row_mismatch']:
         rm = comp['row_mismatch']
@@ -114,6 +115,21 @@ def observe(b, bd, mat, case, runner=cli.run, label='in-process'):
                 dict(jm[name].get('raw_descriptions', {})) != dict(bm['raw_descriptions']):
             raise Violation(f'JSON output ({label}) for merchant {name!r}: {jm[name]["count"]}/{jm[name]["total"]}/{jm[name]["category"]} vs composition '
                             f'{bm["count"]}/{bm["total"]}/{bm["category"]}{ctx}', case, 'json-figures')
+    # per-category totals are sums over TRANSACTIONS (a merchant may have transactions in several categories)
+    from tally.classification import normalize_amount
+    exp_cat = {}
+    for t in comp['txns']:
+        k = (t['category'], t['subcategory'])
+        exp_cat[k] = exp_cat.get(k, 0.0) + normalize_amount(t['amount'], t.get('tags', []))
+    got_cat = {(c['category'], c['subcategory']): c['total'] for c in jd.get('by_category', [])}
+    for k, v in exp_cat.items():
+        if v > 0.0051 and (k not in got_cat or abs(got_cat[k] - v) > 0.00501):
+            raise Violation(f'JSON output ({label}): category {k} totals {got_cat.get(k)} but its transactions add up to {round(v, 2)}{ctx}', case, 'json-by-category')
+    for k, v in got_cat.items():
+        if abs(exp_cat.get(k, 0.0) - v) > 0.00501:
+            raise Violation(f'JSON output ({label}): category {k} totals {v} but its transactions add up to {round(exp_cat.get(k, 0.0), 2)}{ctx}', case, 'json-by-category')
+    if len({t['merchant'] for t in comp['txns']}) < len({(t['merchant'], t['category'], t['subcategory']) for t in comp['txns']}):
+        classes_out.add('merchant_in_two_categories')
     if data.get('currencyFormat') != b['currency']:
         raise Violation(f'currency format {data.get("currencyFormat")!r} != configured {b["currency"]!r}', case, 'currency')
     return comp, (got_t, got_f, got_s)
@@ -124,7 +140,7 @@ def check(case, stats: Stats):
     classes = set()
     with cli.Budget() as bd:
         mat = B.materialise(b, bd)
-        comp, view = observe(b, bd, mat, case)
+        comp, view = observe(b, bd, mat, case, classes_out=classes)
         # a missing / unreadable source is reported by name (non-quiet) and leaves the others intact (checked by the composition above)
         broken = [i for i in mat['sources'] if i['state'] != 'ok']
         if broken and comp['stats'] is not None:
